@@ -49,6 +49,9 @@ def build_aerostruct(surfaces, v=248.136, alpha=5.0, beta=0.0, Mach=0.84, re=1.0
         for k in ("v", "alpha", "beta", "Mach_number", "re", "rho", "CT", "R", "W0", "speed_of_sound", "load_factor"):
             prob.model.connect(k, pn + "." + k, **idx)
         prob.model.connect("empty_cg", pn + ".empty_cg")
+        if any(s.get("struct_weight_relief", False) or s.get("distributed_fuel_weight", False) or "n_point_masses" in s for s in surfaces):
+            # as the package's examples do: the coupled group's own load_factor input is a separate promoted variable
+            prob.model.connect("load_factor", pn + ".coupled.load_factor", **idx)
         for s in surfaces:
             name = s["name"]; com = pn + "." + name + "_perf."
             prob.model.connect(name + ".local_stiff_transformed", pn + ".coupled." + name + ".local_stiff_transformed")
@@ -69,14 +72,14 @@ def build_aerostruct(surfaces, v=248.136, alpha=5.0, beta=0.0, Mach=0.84, re=1.0
             if s.get("distributed_fuel_weight", False):
                 prob.model.connect(name + ".struct_setup.fuel_vols", pn + ".coupled." + name + ".struct_states.fuel_vols")
                 prob.model.connect("fuel_mass", pn + ".coupled." + name + ".struct_states.fuel_mass")
-        if solver is not None:
-            solver(getattr(prob.model, pn))
     if pre_setup is not None:
         pre_setup(prob)
     with warnings.catch_warnings():
         warnings.simplefilter("ignore")
         prob.setup(**(setup_kw or {}))
     for i in range(npoints):
+        if solver is not None:
+            solver(getattr(prob.model, "AS_point_%d" % i))          # solvers are swapped after setup, before final_setup
         getattr(prob.model, "AS_point_%d" % i).coupled.nonlinear_solver.options["iprint"] = -1
     return prob
 
